@@ -53,6 +53,10 @@ type Plan struct {
 	// and Temporary() report true (an expired read deadline keeps failing that
 	// way: "temporary" does not mean the next Read succeeds).
 	Timeout bool
+	// ZeroEach makes the reader answer (0, nil) once before every byte from
+	// offset K on (legal for an io.Reader, if discouraged: the stream keeps
+	// making progress).
+	ZeroEach bool
 	// Unexpected makes the injected error io.ErrUnexpectedEOF (an EOF-like
 	// error that is not io.EOF: a consumer that treats it as the normal end
 	// must not go on reading).
@@ -60,7 +64,7 @@ type Plan struct {
 }
 
 func (p Plan) String() string {
-	if p.Kind == None {
+	if p.Kind == None && !p.ZeroEach {
 		return "none"
 	}
 	if p.Kind == ZeroReads {
@@ -71,6 +75,9 @@ func (p Plan) String() string {
 	}
 	if p.Unexpected {
 		return fmt.Sprintf("%s@%d (io.ErrUnexpectedEOF)", p.Kind, p.K)
+	}
+	if p.ZeroEach {
+		return fmt.Sprintf("zero-length read before every byte from %d", p.K)
 	}
 	return fmt.Sprintf("%s@%d", p.Kind, p.K)
 }
@@ -103,6 +110,7 @@ type Reader struct {
 	fired     bool
 	zeros     int
 	stickyErr bool
+	zeroGiven bool
 	// Delivered collects the bytes actually handed to the consumer.
 	Delivered []byte
 	// Fired reports whether the fault was actually reached.
@@ -126,6 +134,9 @@ func (r *Reader) Read(p []byte) (int, error) {
 	budget := r.Budget
 	if budget == 0 {
 		budget = 4*len(r.Data) + 64
+		if r.Plan.ZeroEach {
+			budget += 2 * len(r.Data)
+		}
 	}
 	if r.calls > budget {
 		panic(ReadBudgetExceeded{Calls: r.calls})
@@ -141,6 +152,12 @@ func (r *Reader) Read(p []byte) (int, error) {
 	if r.Plan.Kind == Truncate && r.Plan.K < end {
 		end = r.Plan.K
 	}
+	if r.Plan.ZeroEach && r.pos >= r.Plan.K && r.pos < end && !r.zeroGiven {
+		r.zeroGiven = true
+		r.Fired = true
+		return 0, nil
+	}
+	r.zeroGiven = false
 	// fault point reached?
 	switch r.Plan.Kind {
 	case ErrAt:
